@@ -561,3 +561,109 @@ def events_hit_cells(skel, trace):
         if not ok:
             bad.append(ev)
     return bad
+
+
+# ---------------------------------------------------------------------------------------------------------------------
+# programs OUTSIDE the Lmmm fragment: `match` (integer literals, sum types, tuples) with stateful arms.
+# No Coq model behind them: the checks evaluate the property's own predicates on the implementation's answers
+# (H1 trace vs published skeleton, cursor home, storage = layout, VM = WASM).
+def gen_match_source(rng):
+    lits = ["1.0", "2.0", "3.0", "5.0", "10.0", "100.0"]
+    def atom(vars_):
+        k = rng.below(6)
+        if k == 0 and vars_: return rng.choice(vars_)
+        if k == 1: return "cnt(%s)" % rng.choice(lits)
+        if k == 2: return "mem(%s)" % (rng.choice(vars_) if vars_ and rng.chance(1, 2) else rng.choice(lits))
+        if k == 3: return "delay(%d.0, %s, %d.0)" % (rng.range(2, 5), rng.choice(vars_) if vars_ else rng.choice(lits), rng.range(0, 2))
+        if k == 4: return "acc()"
+        return rng.choice(lits)
+    def expr(vars_, d=0):
+        k = rng.below(5)
+        if k == 0 or d > 1: return atom(vars_)
+        if k == 1: return "%s + %s" % (atom(vars_), expr(vars_, d + 1))
+        if k == 2: return "(%s) * %s" % (expr(vars_, d + 1), rng.choice(lits))
+        if k == 3: return "(if (%s > %s) { %s } else { %s })" % (atom(vars_), rng.choice(lits), expr(vars_, d + 1), expr(vars_, d + 1))
+        return atom(vars_)
+    def int_match(scrut, vars_):
+        n = rng.range(1, 3)
+        arms = ["%d => %s" % (i, expr(vars_)) for i in range(n)]
+        arms.append("_ => %s" % expr(vars_))
+        return "match %s { %s }" % (scrut, ", ".join(arms))
+    def sum_match(scrut, vars_):
+        arms = ["Up => %s" % expr(vars_), "Down => %s" % expr(vars_)]
+        if rng.chance(1, 2):
+            arms.append("Mid(r) => %s" % expr(vars_ + ["r"]))
+        else:
+            arms.append("_ => %s" % expr(vars_))
+        return "match %s { %s }" % (scrut, ", ".join(arms))
+    def tup_match(p, q, vars_):
+        arms = ["(0, 0) => %s" % expr(vars_), "(0, 1) => %s" % expr(vars_)]
+        if rng.chance(1, 2): arms.append("(1, _) => %s" % expr(vars_))
+        arms.append("_ => %s" % expr(vars_))
+        return "match (%s, %s) { %s }" % (p, q, ", ".join(arms))
+    lines = ["type Dir = Up | Down | Mid(float)", "fn cnt(x){ self + x }", "fn acc(){ self * 2.0 + 1.0 }"]
+    nf = rng.range(1, 2)
+    calls = []
+    for fi in range(nf):
+        kind = rng.below(3)
+        body = []
+        vars_ = ["x"]
+        nst = rng.range(1, 3)
+        for si in range(nst):
+            v = "v%d" % si
+            if rng.chance(2, 3):
+                if kind == 0: rhs = int_match("q", vars_)
+                elif kind == 1: rhs = sum_match("q", vars_)
+                else: rhs = tup_match("p", "q", vars_)
+            else:
+                rhs = expr(vars_)
+            body.append("    let %s = %s" % (v, rhs))
+            vars_.append(v)
+        body.append("    " + " + ".join(vars_[1:] + [atom(vars_)]))
+        if kind == 0:
+            lines.append("fn f%d(q, x){\n%s\n}" % (fi, "\n".join(body)))
+            calls += ["f%d(%s, %s)" % (fi, rng.choice(["now % 3.0", "now % 2.0", "0.0", "1.0", "2.0"]), rng.choice(lits + ["now"])) for _ in range(rng.range(1, 2))]
+        elif kind == 1:
+            lines.append("fn f%d(q: Dir, x: float) -> float {\n%s\n}" % (fi, "\n".join(body)))
+            calls += ["f%d(%s, %s)" % (fi, rng.choice(["Up", "Down", "Mid(%s)" % rng.choice(lits)]), rng.choice(lits + ["now"])) for _ in range(rng.range(1, 3))]
+        else:
+            lines.append("fn f%d(p, q, x){\n%s\n}" % (fi, "\n".join(body)))
+            calls += ["f%d(%s, %s, %s)" % (fi, rng.choice(["now % 2.0", "0.0", "1.0"]), rng.choice(["now % 2.0", "(now % 4.0 > 1.5)", "0.0", "1.0"]), rng.choice(lits + ["now"])) for _ in range(rng.range(1, 2))]
+    tail = " + ".join(calls + (["cnt(1000.0)"] if rng.chance(1, 2) else []))
+    lines.append("fn dsp(){\n    %s\n}" % tail)
+    return "\n".join(lines) + "\n"
+
+
+def impl_layout_predicates(vm, ws):
+    """C05's clauses evaluated on the implementation's answers for one program: [] or [(what, detail)]"""
+    bad = []
+    if vm is None or ws is None or 'samples' not in vm or 'samples' not in ws:
+        return bad
+    if vm['skel'] != ws['skel']:
+        return [("skeleton differs between backends", [vm['skel'], ws['skel']])]
+    _, total = skel_leaves(vm['skel'])
+    for t, s in enumerate(vm['samples']):
+        if 'panic' in s:
+            return [("vm panic at sample %d" % t, s['panic'])]
+        off = events_hit_cells(vm['skel'], s['trace'])
+        if off:
+            return [("state access outside / not at a cell of the published layout (sample %d)" % t, off[:4])]
+        if s['pos'] != 0:
+            return [("state cursor not back at the origin after dsp (sample %d)" % t, s['pos'])]
+        if len(s['words']) != total:
+            return [("storage size differs from layout size", [len(s['words']), total])]
+        w = ws['samples'][t] if t < len(ws['samples']) else None
+        if w is None or 'panic' in w:
+            return [("wasm panic", w)]
+        ww = w['words'] + [0] * max(0, total - len(w['words']))
+        if ww[:total] != s['words'] or any(x != 0 for x in ww[total:]):
+            return [("flat state words differ between VM and WASM (sample %d)" % t, [s['words'], ww])]
+    return bad
+
+
+def match_stream(ck, iexe, n, n_samples, tag):
+    """n generated programs with stateful `match` arms, run on both backends: [(src, result)]"""
+    rng = ck.rng.fork("match-" + tag)
+    srcs = [gen_match_source(rng.fork(i)) for i in range(n)]
+    res = run_impl(iexe, [{"src": s, "n": n_samples, "state": True, "typecheck": True} for s in srcs])
+    return list(zip(srcs, res))
